@@ -31,7 +31,9 @@ namespace Givaro {
         if (n < 2) return 0;
         if (n <= 3) return 1;
         IntPrimeDom::Rep t=n-1,a,q;
-        random(g,a,n);
+        // base in [2, n-2] (n >= 4 here): 0 makes every prime fail, 1 and n-1 make every n pass
+        random(g,a,n-3);
+        addin(a,2);
         long s=0;
         for( ; !( (int)t & 0x1) ; t>>=1, ++s) { }
         powmod(q,a,t,n);
@@ -52,7 +54,9 @@ namespace Givaro {
             // returns 1    : n composite with probability 1/2
             // else         : n composite
         IntPrimeDom::Rep A;
-        random(g,A,n);
+        // base in [1, n-1]: with 0 the result 0 would announce a prime n as composite
+        random(g,A,n-1);
+        addin(A,1);
         return powmod(r,A,(n-1)/2,n);
     }
 
